@@ -42,6 +42,13 @@ new-seeded)
     [ $code = 1 ] || bad=1
     restore
   done ;;
+miri-soak)
+  # Miri parts only, thorough budgets, on the unchanged tree of the snapshot: any report is a false alarm.
+  for p in C10 C11 C18 C12 C20 C08 C13 C02; do
+    res=$(VERIF_ONLY_ENGINE=none VERIF_SECOND_PASS=0 ./check "$p" thorough 2>&1); code=$?
+    echo "$p exit=$code $(echo "$res" | grep -E 'part miri' | cut -c1-90) $(echo "$res" | grep -E '^violation:|HARNESS' | head -1 | cut -c1-300)"
+    [ $code = 0 ] || bad=1
+  done ;;
 seeded)
   n=0
   for d in seeded/S*/; do
